@@ -22,7 +22,7 @@ TEXT = {
  "C16": "Coq theorem: for every visitor with monoid outputs the runner's walk = left-to-right fold of the callback over the flat field-order event list, stopping at the first error (returned unchanged); tied by suite VISIT (recording visitor against the public traits failing at every callback index).",
  "C17": "Coq theorems: folder value = interpreter value in any environment (no side effect), complete on constant expressions, never on non-constant ones, same for the string folder; tied by FOLD suite and fold-vs-exec oracle.",
  "C18": "Coq theorems as pinned + LINT correspondence and the suggestion-equivalence oracle (suggested line parses, runs, stores the reported value).",
- "C19": "Coq theorems: lint output sorted by line, a permutation of both passes' diagnostics, stable within a line (pass then traversal order), repeated-identifier pass = its declarative specification; tied by suite LINT incl. crash detection.",
+ "C19": "Coq theorems: lint output sorted by line, a permutation of both passes' diagnostics, stable within a line (pass then traversal order), repeated-identifier pass = its declarative specification, and lint_total: the linter has no error path and its single failure site is unreachable because the printed text of a non-negative finite number is digits and periods only (proved through the shortest-digits port); tied by suite LINT incl. crash detection.",
  "C20": "Thin Coq theorems about the routing model + process-level comparison of the real binary with the library (stdout bytes, stderr prefixes, lint rendering, invalid UTF-8 input, exit status).",
 }
 checks, na = [], []
